@@ -14,9 +14,17 @@
    end of a truncated file).  Every process runs one program, one file
    operation per step.  [Run p] lets process p do its next operation,
    [Crash p] kills it (the OS drops its advisory lock), [Tick d] advances the
-   wall clock.  The code is modelled AS IT IS (lock object constructed but
-   never acquired, in-place copy, population only of an empty directory);
-   the repaired protocol is a second set of programs (F.. / X.. states).
+   wall clock.  Two sets of programs:
+   * F.. / X.. states (kinds KLoadFixed / KRefreshFixed / KRefreshOf): THE CODE AS IT IS in /repo,
+     i.e. with the fix commits da46472 (C19-F1: the lock is acquired), 19ec63c (C19-F2: copy to a
+     temporary name, then os.replace), 160dd4a (C19-F3: a missing bundled version is looked up in
+     the installed folder; except tuples) and b23f2f7 (C19-F4: tolerant read and atomic write of
+     last_update.txt); D.. states: _safe_move_tmp_to_folder, unchanged by the fixes;
+   * L.. / P.. / R.. states (kinds KLoad / KRefresh): the behaviour BEFORE those commits (lock
+     object constructed but never acquired, in-place copy, fall-through to the network), kept
+     as the record of the repaired defects.
+   The boolean switches of [cfg] are anti-patterns that were never in /repo (all false for the
+   code as it is) and one proposed repair (parse_fallback, fix-F5, not in /repo).
    Models only -- proofs live in Proofs/CacheProofs.v. *)
 From Coq Require Import List Arith Bool PeanoNat.
 From HV Require Import Base.Res.
@@ -159,20 +167,28 @@ Record cfg := mkCfg {
   nchunks : nat;      (* chunks per file *)
   threshold : nat;    (* CACHE_TIME_THRESHOLD *)
   max_tries : nat;    (* lock attempts before the timeout expires *)
-  (* ANTI-PATTERN switches, all false for the code as it is and for the repaired protocol: *)
+  (* ANTI-PATTERN switches, never in /repo: all false for the code as it is (and before the fixes): *)
   unlink_on_release : bool;     (* __exit__ also removes cache_lock.lock *)
   cleanup_outside_lock : bool;  (* cache_local_versions deletes every *.tmp BEFORE taking the lock *)
   memo_stamp : bool;            (* the last-update time is memoised per OS process *)
-  per_process_locks : bool      (* the advisory lock belongs to the OS PROCESS (POSIX record locks, lockf)
+  per_process_locks : bool;     (* the advisory lock belongs to the OS PROCESS (POSIX record locks, lockf)
                                    instead of the open file (flock): a second holder in the same process
                                    gets in, and its close drops the lock of the whole process *)
+  ignore_future_stamp : bool;   (* a recorded time AHEAD of the caller's clock is treated as "no stamp" *)
+  (* REPAIR switch (proposed fix-F5, not in /repo): false = the code as it is *)
+  parse_fallback : bool         (* a cache copy that does not parse falls back to the installed file *)
 }.
 
 (* time_since_update < time_threshold, last time 0 when there is no stamp
    (time.time() is far beyond the threshold) *)
 Definition within (c : cfg) (s : shared) : bool :=
   match stamp s with
-  | StampAt t => Nat.ltb (clock s - t) (threshold c)
+  | StampAt t =>
+      (* time_since_update = now - last may be NEGATIVE (the clock was stepped back, or another host
+         with a clock ahead recorded the time): negative < threshold, the attempt is skipped;
+         with truncated subtraction: 0 < threshold *)
+      if ignore_future_stamp c && Nat.ltb (clock s) t then false
+      else Nat.ltb (clock s - t) (threshold c)
   | _ => false
   end.
 
@@ -198,11 +214,11 @@ Inductive outcome : Set :=
 | OMoved.              (* _safe_move_tmp_to_folder returned the destination *)
 
 Inductive kind : Set :=
-| KLoad (v : nat)         (* load_schema_version(v), code as it is *)
-| KRefresh                (* cache_xml_versions(), code as it is *)
+| KLoad (v : nat)         (* load_schema_version(v), behaviour BEFORE da46472/19ec63c/160dd4a/b23f2f7 *)
+| KRefresh                (* cache_xml_versions(), behaviour before those commits *)
 | KDownload (f : nat)     (* _safe_move_tmp_to_folder(tmp, HED<f>.xml) *)
-| KLoadFixed (v : nat)    (* load_schema_version(v), repaired protocol *)
-| KRefreshFixed           (* cache_xml_versions(), repaired protocol *)
+| KLoadFixed (v : nat)    (* load_schema_version(v), THE CODE AS IT IS (with the four fix commits) *)
+| KRefreshFixed           (* cache_xml_versions(), the code as it is *)
 | KRefreshOf (o : nat).   (* the same, as one of several calls made by OS process o *)
 
 (* the OS process a model process (= one call) belongs to; its own by default *)
@@ -213,7 +229,7 @@ Definition target (k : kind) : nat :=
   match k with KLoad v => v | KLoadFixed v => v | KDownload f => f | _ => 0 end.
 
 Inductive pc : Set :=
-(* -- code as it is -- *)
+(* -- behaviour before the fix commits (record of the repaired defects) -- *)
 | LList1                 (* get_hed_versions: os.listdir *)
 | PEnter                 (* cache_local_versions: CacheLock(write_time=False).__enter__ *)
 | PExists (f : nat)      (* _copy_installed_folder_to_cache: os.path.exists(cache_name) *)
@@ -230,7 +246,7 @@ Inductive pc : Set :=
 | DOpen (f : nat)        (* copyfile(tmp, cache/tmpname): open *)
 | DWrite (f i : nat)     (* copyfile: write chunk i *)
 | DReplace (f : nat)     (* os.replace(cache/tmpname, dest) *)
-(* -- repaired protocol -- *)
+(* -- the code as it is (/repo with da46472, 19ec63c, 160dd4a, b23f2f7) -- *)
 | FList1                 (* get_hed_versions: os.listdir *)
 | FClean                 (* ANTI-PATTERN only: remove every *.tmp in the folder, outside the lock *)
 | FEnter                 (* CacheLock.__enter__: read the time stamp (tolerant), threshold test *)
@@ -295,7 +311,7 @@ Definition cur_content (m : files) (k : fname) : content :=
 Definition after_chunk (c : cfg) (i : nat) (again next : pc) : pc :=
   if Nat.ltb (S i) (nchunks c) then again else next.
 
-(* repaired lookup: the cache copy if the listing has it, else the installed file of a bundled
+(* lookup of the code as it is (160dd4a): the cache copy if the listing has it, else the installed file of a bundled
    version (anything else goes to the network path, not modelled) *)
 Definition lookup_fixed (c : cfg) (m : files) (v : nat) : pc :=
   if has m (Ver v) then FRead
@@ -340,7 +356,7 @@ Definition leave (c : cfg) (p : nat) (d : option nat) (s : shared) : shared :=
   let s1 := release p d s in
   if unlink_on_release c then set_lockfile s1 None else s1.
 
-(* _read_last_cached_time as seen by OS process o.  Code as it is / repaired: the shared file, always.
+(* _read_last_cached_time as seen by OS process o.  The code as it is (and before the fixes): the shared file, always.
    ANTI-PATTERN memo_stamp: a remembered value wins as long as last_update.txt exists. *)
 Definition within_for (c : cfg) (o : nat) (s : shared) : bool :=
   if memo_stamp c then
@@ -435,17 +451,17 @@ Definition pstep (c : cfg) (p : nat) (s : shared) (r : proc) : shared * proc :=
       | Some x => (set_files s (fset (fdel m (Tmp p f)) (Ver f) x), goto r (Done OMoved))
       | None => (s, goto r (Done (OFail FNotCached)))
       end
-  (* ---- repaired protocol ---- *)
+  (* ---- the code as it is ---- *)
   (* get_hed_versions as before: the cache is seeded only when the folder is empty; the lookup
-     uses this listing, and (fix F3) a version missing from it is looked up in the installed folder *)
+     uses this listing, and (160dd4a, C19-F3) a version missing from it is looked up in the installed folder *)
   | FList1 =>
       if dir_empty s then (s, goto r (if cleanup_outside_lock c then FClean else FEnter))
       else (s, goto r (lookup_fixed c m v))
   (* ANTI-PATTERN: "remove leftover temporary files" before (= outside) the lock *)
   | FClean => (set_files s (filter not_tmp m), goto r FEnter)
-  (* CacheLock.__enter__ (fix F4: an unreadable stamp counts as 0): threshold test first ... *)
+  (* CacheLock.__enter__ (b23f2f7, C19-F4: an unreadable stamp counts as 0): threshold test first ... *)
   | FEnter => if within c s then (s, set_err (goto r FCheck)) else (s, goto r FAcquire)
-  (* ... then (fix F1) the lock is really acquired; LockException -> CacheException -> -1 *)
+  (* ... then (da46472, C19-F1) the lock is really acquired; LockException -> CacheException -> -1 *)
   | FAcquire => acquire_step c p s r (FExists 0) FCheck
   | FExists f =>
       if Nat.leb (nfiles c) f then (s, goto r FRelease)
@@ -474,6 +490,7 @@ Definition pstep (c : cfg) (p : nat) (s : shared) (r : proc) : shared * proc :=
       | None => if Nat.ltb v (nfiles c) then (s, goto r FReadInstalled)
                 else (s, goto r (Done (OFail FNotCached)))
       | Some x => if content_eqb x (good (nchunks c)) then (s, goto r (Done OLoaded))
+                  else if parse_fallback c && Nat.ltb v (nfiles c) then (s, goto r FReadInstalled)
                   else (s, goto r (Done (OFail FParse)))
       end
   | FReadInstalled => (s, goto r (Done OLoaded))
@@ -500,7 +517,9 @@ Fixpoint upd {A} (l : list A) (i : nat) (x : A) : list A :=
   | h :: t, S i' => h :: upd t i' x
   end.
 
-Inductive event : Set := Run (p : nat) | Crash (p : nat) | Tick (d : nat).
+(* [Back d]: the wall clock is stepped BACK by d (NTP correction, VM resume; also stands for a
+   host whose clock is behind the one that wrote the stamp) *)
+Inductive event : Set := Run (p : nat) | Crash (p : nat) | Tick (d : nat) | Back (d : nat).
 
 Definition is_done (c : pc) : bool := match c with Done _ => true | _ => false end.
 
@@ -518,6 +537,7 @@ Definition step (c : cfg) (w : world) (e : event) : world :=
       | None => w
       end
   | Tick d => mkW (set_clock (sh w) (clock (sh w) + d)) (procs w)
+  | Back d => mkW (set_clock (sh w) (clock (sh w) - d)) (procs w)
   end.
 
 Definition run (c : cfg) (w : world) (evs : list event) : world := fold_left (step c) evs w.
@@ -526,6 +546,11 @@ Definition sh0 (t : nat) : shared := mkSh [] NoStamp None [] 0 t 0 [].
 
 (* an empty cache directory at time t and one process per kind *)
 Definition init (t : nat) (ks : list kind) : world := mkW (sh0 t) (map start ks).
+
+(* the same processes started on a directory in ANY state s0 left by whoever used it before:
+   arbitrary files (leftover temporary files of dead processes included), time stamp (also a torn
+   one), lock file, advisory locks still held by processes outside ks, clock *)
+Definition init_from (s0 : shared) (ks : list kind) : world := mkW s0 (map start ks).
 
 (* the pc of every stepping process before its step (for trace comparison) *)
 Fixpoint trace (c : cfg) (w : world) (evs : list event) : list (option pc) :=
@@ -566,7 +591,7 @@ Definition no_crash (evs : list event) : Prop :=
 Definition all_done (w : world) : Prop :=
   Forall (fun r => is_done (pc_of r) = true) (procs w).
 
-Definition is_cur_kind (k : kind) : bool :=
+Definition is_prefix_kind (k : kind) : bool :=
   match k with KLoad _ | KRefresh => true | _ => false end.
 Definition is_fixed_kind (k : kind) : bool :=
   match k with KLoadFixed _ | KRefreshFixed | KRefreshOf _ | KDownload _ => true | _ => false end.
